@@ -316,7 +316,8 @@ def run_case(case):
                 info["scales"][0]["sharding"] = {
                     "@type": "neuroglancer_uint64_sharded_v1", "hash": "identity",
                     "minishard_bits": mb, "shard_bits": sb, "preshift_bits": pb,
-                    "minishard_index_encoding": "raw", "data_encoding": "raw"}
+                    "minishard_index_encoding": ("raw", "gzip")[(mb + pb) % 2],
+                    "data_encoding": ("raw", "gzip")[(sb + pb) % 2]}
             with open(os.path.join(dest, "info"), "w") as f:
                 json.dump(info, f)
         sc0 = info["scales"][0]
